@@ -90,6 +90,10 @@ def run_case(case, rec, ssj=None):
     ssj = ssj or env.load()
     rng = random.Random(case['seed'])
     tok = gen.random_tokenizer(rng)
+    if rng.random() < 0.05:
+        # a user tokenizer that hands out immutable tuples (joins and filters only measure and
+        # intersect the token containers; py_stringmatching's measures would insist on lists)
+        tok = {'kind': 'ws', 'user': 'tuple', 'return_set': rng.random() < 0.6}
     L, R = make_tables(rng, tok)
     allow_empty = rng.random() < 0.5
     entry = rng.choice(['join', 'join', 'ft', 'pair', 'candset'])
